@@ -109,10 +109,31 @@ class ContractTable:
         if self.has(attr):
             return ContractMethod(o, attr)
         if o.cls is None:
-            # structural fields of an object of unknown class: an AttributeError for the
-            # classes that lack it; the code always guards with isinstance
-            raise Unsupported(f"attribute {attr} of unknown-class object {o.name} (unguarded access)")
+            # an attribute of an object of unknown class: AttributeError for the classes
+            # that lack it.  If no expression class has it, that is certain.
+            owners = [c for c in self.prog.concrete_expression_classes() if attr in self.instance_attrs(c)]
+            if not owners:
+                raise Raise(I.bi.make_exc("AttributeError", f"expression object has no attribute {attr}"), I.where())
+            raise Unsupported(f"attribute {attr} of unknown-class object {o.name} (unguarded access; only {[c.name for c in owners]} have it)")
         raise Unsupported(f"attribute {attr} of refined child {o.name}")
+
+    def instance_attrs(self, cls):
+        """Names an instance of cls answers to: methods / properties of the MRO and the
+        fields its constructors assign (self.X = ...)."""
+        import ast as _ast
+        cache = self.__dict__.setdefault("_attr_cache", {})
+        if cls.name not in cache:
+            names = set()
+            for c in cls.mro:
+                names |= set(c.methods)
+                init = c.methods.get("__init__")
+                if init is not None:
+                    for n in _ast.walk(init.node):
+                        if isinstance(n, _ast.Attribute) and isinstance(n.ctx, _ast.Store) \
+                                and isinstance(n.value, _ast.Name) and n.value.id == "self":
+                            names.add(n.attr)
+            cache[cls.name] = names
+        return cache[cls.name]
 
     def child_setattr(self, I, o, attr, v):
         I.heap_log.append(("store", o, attr, I.where(), False))
@@ -353,6 +374,11 @@ class ContractTable:
     # -- equality / hashing / printing --------------------------------------------------
     def c_eq(self, I, o, args, kwargs):
         from . import structural
+        if getattr(o.cls, "name", None) == "Point":
+            b = args[0]
+            if isinstance(b, Obj) and getattr(b.cls, "name", None) == "Point":
+                return I.bi.dict_equals(o.fields["_coordinates"], b.fields["_coordinates"])
+            return False
         return structural.struct_eq(I, o, args[0])
 
     def c_ne(self, I, o, args, kwargs):
@@ -360,7 +386,10 @@ class ContractTable:
         return z3.Not(r) if z3.is_expr(r) else (not r)
 
     def c_hash(self, I, o, args, kwargs):
-        from . import structural
+        from . import structural, hashing
+        if getattr(o.cls, "name", None) == "Point":
+            present, vals = hashing.items_arrays(I, o.fields["_coordinates"])
+            return SNum(structural.hash_items(present, vals), True)
         return structural.struct_hash(I, o)
 
     def c_str(self, I, o, args, kwargs):
